@@ -40,11 +40,25 @@ class Canon:
                     tgt, kind = n["r"], "assign"
                 elif not n.get("op") and n.get("cc") and not n.get("cst") and not n.get("st") and n.get("pn", "").split("::")[-1] not in NON_MUTATING:
                     tgt, kind = n["r"], "call"
-            if tgt is None:
-                continue
-            t = unwrap(f.resolve(tgt))
-            if isinstance(t, dict) and t.get("k") == "var" and t.get("id") in self.decl:
-                self.mods.setdefault(t["id"], []).append((kind, b, i, n))
+            tgts = [(tgt, kind)] if tgt is not None else []
+            # out-parameters: stream extraction, std::getline, and repository callees taking a non-const reference
+            if k == "call":
+                args = n.get("a", [])
+                if n.get("op") == ">>" and args:
+                    tgts.append((args[-1], "call"))
+                nm = n.get("pn", n.get("n", "")).split("::")[-1]
+                if nm == "getline" and len(args) >= 2:
+                    tgts.append((args[1], "call"))
+                callee = f.fb.fns.get(n.get("u")) if getattr(f, "fb", None) is not None else None
+                if callee is not None:
+                    for a_, p_ in zip(args, callee.d.get("params", [])):
+                        pt = p_.get("t", "")
+                        if pt.endswith("&") and not pt.endswith("&&") and not pt.startswith("const "):
+                            tgts.append((a_, "call"))
+            for tgt, kind in tgts:
+                t = unwrap(f.resolve(tgt))
+                if isinstance(t, dict) and t.get("k") == "var" and t.get("id") in self.decl:
+                    self.mods.setdefault(t["id"], []).append((kind, b, i, n))
         order = sorted(self.decl, key=lambda x: (self.decl[x][0].get("ln", 0), self._pos(x)))
         ki = kv = 0
         self.kind = {}
